@@ -5,7 +5,8 @@ package main
 // sequences (ordered or not) by a harness-owned SourceReader that paces its
 // reads so that the runner's own 200 ms watermark ticker fires at varying
 // stream positions. The stream each runner sends to its (single, harness-owned)
-// operator is recorded in order: one ndjson line per keyed event / watermark,
+// operator (which, in half of the runs, holds one HandleEventBatch call for
+// longer than a tick period) is recorded in order: one ndjson line per keyed event / watermark,
 // validated against spec/WatermarkTrace.tla by the driver. Runs are separated
 // by {"op":"Reset"}.
 
@@ -90,13 +91,21 @@ type srRecorder struct {
 	unit   int64
 	events []map[string]any
 	bad    []string
+	holds  []time.Duration // per HandleEventBatch call: the operator is slow (back-pressure on the runner's sender)
 }
 
 func (o *srRecorder) ID() string   { return "op" }
 func (o *srRecorder) Host() string { return "h" }
 func (o *srRecorder) HandleEventBatch(ctx context.Context, batch []*workerpb.Event) error {
 	o.mu.Lock()
-	defer o.mu.Unlock()
+	var hold time.Duration
+	if len(o.holds) > 0 {
+		hold, o.holds = o.holds[0], o.holds[1:]
+	}
+	defer func() {
+		o.mu.Unlock()
+		time.Sleep(hold) // after recording: the stream is the order in which the batches entered the operator
+	}()
 	zeroWM := time.Time{}.Add(-time.Nanosecond)
 	for _, e := range batch {
 		switch ev := e.Event.(type) {
@@ -145,6 +154,13 @@ func recordSourceRunner(rng *rand.Rand, maxTs, maxEv int) ([]map[string]any, err
 	if rng.Intn(2) == 0 {
 		bp = batching.EventBatcherParams{MaxSize: 2, MaxDelay: 3 * time.Millisecond}
 	}
+	// in half of the runs one of the first calls into the operator takes longer than one or two tick periods
+	var held time.Duration
+	if rng.Intn(2) == 0 {
+		rec.holds = make([]time.Duration, 1+rng.Intn(4))
+		held = time.Duration(250+rng.Intn(400)) * time.Millisecond
+		rec.holds[len(rec.holds)-1] = held
+	}
 	sr := sourcerunner.New(sourcerunner.NewParams{
 		Host: "h", UserHandler: hd, Job: proto.NoopJob{}, Clock: clocks.NewFrozenClock(), EventBatching: bp,
 		OperatorFactory:     func(senderID string, node *jobpb.NodeIdentity) proto.Operator { return rec },
@@ -166,7 +182,7 @@ func recordSourceRunner(rng *rand.Rand, maxTs, maxEv int) ([]map[string]any, err
 	case <-time.After(10 * time.Second):
 		return nil, fmt.Errorf("source reader was not drained")
 	}
-	time.Sleep(700 * time.Millisecond) // the slowest keying call, then at least two more ticks
+	time.Sleep(700*time.Millisecond + held) // the slowest keying call and the slow operator call, then at least two more ticks
 	sr.Halt()
 	select {
 	case <-startErr:
